@@ -28,8 +28,10 @@ THEMES = [
     ['>', '<', '!', '?', '$', '|', '\r'],
     ['~', '#', '=', '!', '>', '\t', 'Ⅷ'],
     ['+', '*', '/', '(', ')', '²', '\x7f'],
+    # whitespace for char::is_whitespace but not for char::is_ascii_whitespace: must be rejected outside literals
+    ['\u00a0', '\u2003', '\u3000', '\x85', '\x0b', '+', '\t'],
 ]
-POOL = sorted(set(sum(THEMES, [])) | {'\x0b', '\x1c', '\x85', ' ', ' ', 'ǅ', '́', '０'})
+POOL = sorted(set(sum(THEMES, [])) | {'\x0b', '\x1c', '\x85', '\u00a0', '\u2003', '\u3000', '\u1680', '\u2028', 'ǅ', '\u0301', '０'})
 
 
 def alphabet(seed):
@@ -132,7 +134,7 @@ def r_space(r):
         return r.choice(['\n', ' \n', '\n ', ' \n ', '\t\n\t'])
     if k < 0.95:
         return r.choice(['\n\n', ' \n\n', '\n \n', '\n\n ', ' \n \n ', '\n\n\n', '\n\t\n\n', ' \n\r\n', '\n\x0c', '\x0c', '\x0c\n', ' \x0c\x0c'])
-    return r.choice(['\x0b', ' ', ' ', '\x85', '\x1c'])
+    return r.choice(['\x0b', '\u00a0', '\u2003', '\u3000', '\x85', '\x1c', '\u1680', '\u2028'])
 
 
 def r_token(r, ops, clean=False):
@@ -195,7 +197,7 @@ def gen_cases(seed, tier):
 
 # ------------------------------------------------------------------ direct oracle for property C13 (implementation side only)
 
-FOREIGN = set('€\\\0\x01\x7f😀→\x1b\x0b\x1c\x85\u00a0\u2003\u0301')
+FOREIGN = set('€\\\0\x01\x7f😀→\x1b\x0b\x1c\x85\u00a0\u2003\u3000\u1680\u2028\u0301')
 LITERALS = {'CharList', 'ByteList', 'LineAnnotation'}
 
 
